@@ -1,7 +1,7 @@
 (* Property C11 - theorem statements only; every proof is `exact <lemma>` into Proofs/. *)
 From Coq Require Import List Arith NArith ZArith Bool String.
 From Coq.Strings Require Import Byte.
-From Gopki.Model Require Import Bytes Base64 Pem Der Asn1 Text Algs Glue Pkcs8 Ext Rdn Time X509 Generate HashView Dir Plan Run Ops Cli Merge Validate.
+From Gopki.Model Require Import Bytes Base64 Pem Der Asn1 Text Algs Glue Pkcs8 Ext Rdn Time X509 Generate HashView Dir Plan Run Ops Cli Merge Validate Current.
 From Gopki.Spec Require Import RegenSpec DirInv MergeSpec ValidateSpec X509Spec ExtSpec AdmissionSpec PolicySpec.
 From Gopki.Proofs Require Import RunProofs ExtProofs PlanProofs WfProofs X509Proofs DerProofs Asn1Proofs TimeRangeProofs RdnProofs GenerateProofs ValidateProofs TimeProofs AlgsProofs Base64Proofs PolicyProofs MergeProofs CliProofs OpsProofs FaultProofs HistoryProofs HashViewProofs Pkcs8Proofs RecoverProofs PemTornProofs AdmissionProofs PemProofs GlueProofs.
 Import ListNotations.
@@ -12,7 +12,7 @@ Theorem C11_plan_iff_regen :
     forest es ->
     all_valid es ->
     exists ch : list alias,
-      plan true es s = Some ch /\
+      plan cur_csr es s = Some ch /\
       (forall a : alias, In a ch <-> regen es s a) /\
       NoDup ch /\
       (forall (i j : nat) (x y : alias) (e : ent),
